@@ -7,8 +7,10 @@
 // candidate leaf three answers are collected:
 //
 //	eng  the CA's answer: Authority.Sign on a CSR with the names (403 -> deny, 500 -> err,
-//	     certificate -> allow); cross-checked against the engine's ValidateCertificate and the
-//	     pre-signing gate called directly
+//	     certificate -> allow); cross-checked against the engine's ValidateCertificate, the
+//	     pre-signing gate called directly, Authority.Renew / Rekey of a certificate that
+//	     carries the names, and (DNS/IP-only names) GetTLSCertificate of an authority whose
+//	     configured dnsNames are these names (any difference is reported as "inconsistent:…")
 //	vfy  crypto/x509 Certificate.Verify (the independent standard verifier) on the certificate
 //	     the CA returned with the chain it returned and the configured root, or, when the CA
 //	     refused, on a leaf with the same names signed directly with the issuing CA's key
@@ -38,6 +40,7 @@ import (
 	"time"
 
 	"github.com/smallstep/certificates/authority"
+	"github.com/smallstep/certificates/authority/config"
 	"github.com/smallstep/certificates/authority/provisioner"
 	"github.com/smallstep/certificates/errs"
 	"go.step.sm/crypto/x509util"
@@ -141,12 +144,16 @@ func (k *Case) render(b *built) (string, bool) {
 }
 
 func verify(leaf *x509.Certificate, chain []*x509.Certificate, root *x509.Certificate) string {
+	return verifyAt(leaf, chain, root, t0.Add(time.Hour))
+}
+
+func verifyAt(leaf *x509.Certificate, chain []*x509.Certificate, root *x509.Certificate, at time.Time) string {
 	roots, ints := x509.NewCertPool(), x509.NewCertPool()
 	roots.AddCert(root)
 	for _, crt := range chain {
 		ints.AddCert(crt)
 	}
-	_, err := leaf.Verify(x509.VerifyOptions{Roots: roots, Intermediates: ints, CurrentTime: t0.Add(time.Hour), KeyUsages: []x509.ExtKeyUsage{x509.ExtKeyUsageAny}})
+	_, err := leaf.Verify(x509.VerifyOptions{Roots: roots, Intermediates: ints, CurrentTime: at, KeyUsages: []x509.ExtKeyUsage{x509.ExtKeyUsageAny}})
 	if err == nil {
 		return "ok"
 	}
@@ -243,6 +250,70 @@ func (k *Case) run(b *built) (out string, ok bool) {
 		return "inconsistent:gate=" + g + " eng=" + eng, true
 	}
 	vfy := verify(leaf, b.ints, b.root)
+
+	// renew and rekey of a certificate with these names (the directly signed leaf stands for a
+	// certificate issued before the chain's constraints changed): same answer as the engine,
+	// and what comes back verifies like the leaf
+	for _, op := range []string{"renew", "rekey"} {
+		var pk crypto.PublicKey
+		if op == "rekey" {
+			pk = keys[3].Public()
+		}
+		rc, err := b.auth.RenewContext(context.Background(), leaf, pk)
+		if err != nil {
+			if s := statusClass(err); s != eng {
+				return "inconsistent:" + op + "=" + s + " eng=" + eng, true
+			}
+			continue
+		}
+		stats[op+":issued"]++
+		if eng != "allow" {
+			return "inconsistent:" + op + "=issued eng=" + eng, true
+		}
+		if len(rc) != 1+len(b.ints) || rc[0].CheckSignatureFrom(b.ints[0]) != nil {
+			return "inconsistent:" + op + "-chain", true
+		}
+		if sv := verifyAt(rc[0], rc[1:], b.root, time.Now()); sv != vfy {
+			return "inconsistent:" + op + "-vfy=" + sv + " direct-vfy=" + vfy, true
+		}
+	}
+
+	// the CA's own HTTPS certificate (GetTLSCertificate) for these names, when they can be written
+	// as config dnsNames (DNS names and IPs only): a second authority on the same chain
+	if len(k.Names.Emails)+len(k.Names.URIs) == 0 && len(k.Names.DNS)+len(ips) > 0 {
+		sans := append([]string{}, k.Names.DNS...)
+		for _, ip := range ips {
+			sans = append(sans, ip.String())
+		}
+		d, i, e, u := x509util.SplitSANs(sans)
+		if len(d) == len(k.Names.DNS) && len(i) == len(ips) && len(e)+len(u) == 0 {
+			a2, err := authority.NewEmbedded(authority.WithConfig(&config.Config{DNSNames: sans}),
+				authority.WithX509RootCerts(b.root), authority.WithX509SignerChain(b.ints, b.issKy))
+			if err == nil {
+				tc, err := a2.GetTLSCertificate()
+				switch {
+				case err != nil:
+					stats["tls:refused"]++
+				case eng != "allow":
+					return "inconsistent:tls=issued eng=" + eng, true
+				default:
+					stats["tls:issued"]++
+					var cs []*x509.Certificate
+					for _, der := range tc.Certificate {
+						if crt, err := x509.ParseCertificate(der); err == nil {
+							cs = append(cs, crt)
+						}
+					}
+					if len(cs) != 1+len(b.ints) {
+						return "inconsistent:tls-chain", true
+					}
+					if sv := verifyAt(cs[0], cs[1:], b.root, time.Now()); sv != vfy {
+						return "inconsistent:tls-vfy=" + sv + " direct-vfy=" + vfy, true
+					}
+				}
+			}
+		}
+	}
 
 	// through the CA: CSR -> Authority.Sign
 	csrDER, err := x509.CreateCertificateRequest(rand.Reader, &x509.CertificateRequest{
@@ -388,7 +459,9 @@ func main() {
 			stats["skip:chain-not-creatable"]++
 		}
 	}
-	r := c.NewRng(c.Seed())
+	// common.NewRng(s) and NewRng(s+1) are the same stream shifted by one draw; re-seed from the
+	// first output so that neighbouring VERIF_SEED values give unrelated case streams
+	r := c.NewRng(c.NewRng(c.Seed()).U64())
 	for i := 0; i < *n; i++ {
 		rr := r.Fork()
 		k := &Case{Levels: gen.GenChain(rr, true, 3)}
